@@ -295,7 +295,9 @@ _PRIM_CLASSES = {"bytes": VBytes, "str": VStr, "list": (VList,), "tuple": VTuple
 
 def _isinst1(ex, st, v, cv, where) -> T:
     if isinstance(v, VAny):
-        return ex.arbitrary(BOOL, "isinst_opaque")
+        # opaque token: instance-of is an uninterpreted predicate of (token, class)
+        cname = cv.obj.name if isinstance(cv, VPy) and cv.what == "class" else str(getattr(cv, "obj", cv))
+        return _ufun(ex, "tok_isinst", [INT, INT], BOOL, v.t, ex.class_id(cname))
     if isinstance(cv, VPy) and cv.what == "builtin":
         n = cv.obj
         if n == "int":
